@@ -308,6 +308,9 @@ structure Env where
   customObjects : List String
   /-- `max(1, quantizer.max())` (or 1.0 without a `max` attribute): numeric, property C01 -/
   clipBound : QVal → PyVal
+  /-- names that Keras resolves itself when it deserialises a stock layer: its built-in activation
+      names (compared with `tf.keras.activations` on every run) -/
+  kerasNames : List String := []
 
 def Env.findQ (E : Env) (n : String) : Option QSpec := E.qspecs.find? (fun s => s.name == n)
 def Env.findL (E : Env) (n : String) : Option LSpec := E.lspecs.find? (fun s => s.name == n)
@@ -654,6 +657,20 @@ def layerFromSer (E : Env) (v : PyVal) : Except Err Layer :=
 def Env.isLibraryClass (E : Env) (c : String) : Bool :=
   (E.findL c).isSome || c == "QBidirectional"
 
+/-- config keys of a stock Keras layer whose string value Keras resolves as an identifier -/
+def identifierKeys : List String := ["activation", "recurrent_activation"]
+
+/-- Keras resolving an identifier string INSIDE the custom-object scope the three routes install:
+    a key of the table wins over Keras' own function of the same name (the value then denotes the
+    table's object, written `{"custom_object": name}` here) -/
+def resolveName (E : Env) : PyVal → PyVal
+  | .str s => if E.customObjects.contains s then .dict [("custom_object", .str s)] else .str s
+  | v => v
+
+/-- what a stock Keras layer's config means after a route -/
+def kerasNodeCfg (E : Env) (cfg : Cfg) : Cfg :=
+  cfg.map fun kv => if identifierKeys.contains kv.1 then (kv.1, resolveName E kv.2) else kv
+
 def nodeFromConfig (E : Env) (s : SNode) : Except Err Node :=
   if E.isLibraryClass s.cls then
     if E.customObjects.contains s.cls then
@@ -676,7 +693,7 @@ def nodeFromConfig (E : Env) (s : SNode) : Except Err Node :=
         | some spec => (layerFromConfig E spec s.cfg).map .q
         | none => .error .unknownObject
     else .error .unknownObject
-  else .ok (.keras s.cls s.cfg)
+  else .ok (.keras s.cls (kerasNodeCfg E s.cfg))
 
 def collectNodes : List (Except Err MNode) → Except Err Model
   | [] => .ok []
